@@ -1,10 +1,11 @@
 package lineintersector
 
 import (
+	"math"
+
 	geom "github.com/twpayne/go-geom"
 	"github.com/twpayne/go-geom/bigxy"
 	"github.com/twpayne/go-geom/xy/internal"
-	"github.com/twpayne/go-geom/xy/internal/centralendpoint"
 	"github.com/twpayne/go-geom/xy/internal/hcoords"
 	"github.com/twpayne/go-geom/xy/lineintersection"
 	"github.com/twpayne/go-geom/xy/orientation"
@@ -195,7 +196,7 @@ func intersection(data *lineIntersectorData, line1Start, line1End, line2Start, l
 	 * This code checks this condition and forces a more reasonable answer
 	 */
 	if !isInSegmentEnvelopes(data, intPt) {
-		intPt = centralendpoint.GetIntersection(line1Start, line1End, line2Start, line2End)
+		intPt = nearestEndpoint(line1Start, line1End, line2Start, line2End)
 	}
 
 	// TODO Enable if we add a precision model
@@ -238,9 +239,48 @@ func intersectionWithNormalization(line1Start, line1End, line2Start, line2End ge
 func safeHCoordinateIntersection(line1Start, line1End, line2Start, line2End geom.Coord) geom.Coord {
 	intPt, err := hcoords.GetIntersection(line1Start, line1End, line2Start, line2End)
 	if err != nil {
-		return centralendpoint.GetIntersection(line1Start, line1End, line2Start, line2End)
+		return nearestEndpoint(line1Start, line1End, line2Start, line2End)
 	}
 	return intPt
+}
+
+// nearestEndpoint returns a copy of the end point of one segment that lies
+// closest to the other segment. Two segments that are known to cross properly
+// but whose crossing point cannot be computed reliably meet very close to that
+// end point, so it is a good approximation of the crossing; the end point
+// nearest to the centre of all four end points, which was used before, can be
+// as far from the crossing as the segments are long.
+func nearestEndpoint(line1Start, line1End, line2Start, line2End geom.Coord) geom.Coord {
+	nearest := line1Start
+	minDist := distancePointToSegment(line1Start, line2Start, line2End)
+	if dist := distancePointToSegment(line1End, line2Start, line2End); dist < minDist {
+		minDist, nearest = dist, line1End
+	}
+	if dist := distancePointToSegment(line2Start, line1Start, line1End); dist < minDist {
+		minDist, nearest = dist, line2Start
+	}
+	if dist := distancePointToSegment(line2End, line1Start, line1End); dist < minDist {
+		nearest = line2End
+	}
+	return geom.Coord{nearest[0], nearest[1]}
+}
+
+// distancePointToSegment returns the distance from p to the segment from a to b.
+func distancePointToSegment(p, a, b geom.Coord) float64 {
+	dx, dy := b[0]-a[0], b[1]-a[1]
+	len2 := dx*dx + dy*dy
+	if len2 == 0 {
+		return internal.Distance2D(p, a)
+	}
+	r := ((p[0]-a[0])*dx + (p[1]-a[1])*dy) / len2
+	if r <= 0 {
+		return internal.Distance2D(p, a)
+	}
+	if r >= 1 {
+		return internal.Distance2D(p, b)
+	}
+	s := ((a[1]-p[1])*dx - (a[0]-p[0])*dy) / len2
+	return math.Abs(s) * math.Sqrt(len2)
 }
 
 /*
